@@ -250,6 +250,10 @@ func (c *FnCtx) checkReturn(frame *Frame, st *State, results []Val, ret *ssa.Ret
 	env := c.returnEnv(frame, st, results, ret.Block())
 	cov := &Oblig{Name: fmt.Sprintf("%s#cover:return@b%d", c.key, ret.Block().Index), Kind: "cover", Goal: "false", PC: append([]string(nil), st.pc...), Fn: c, Pos: c.pos(ret.Pos())}
 	c.covers = append(c.covers, cov)
+	if fc.RulesOnly {
+		// postconditions and frame are assumed for callers; only the rules inside the body are checked
+		return
+	}
 	for _, e := range fc.Ensures {
 		t, err := c.evalBool(env, e.Expr)
 		if err != nil {
